@@ -265,11 +265,45 @@ def leaf_class(m, cl):
     return None, "consumes %s" % [rlpclass.fmt(k) for k in kinds]
 
 
+def map_maximum(m, o):
+    """is o the largest key of the decoder's content map:
+    `content.last_key_value()` -> Some((k, _)) -> k"""
+    cur = o
+    path = []
+    for _ in range(6):
+        cur = strip(cur)
+        if cur.k == "field":
+            path.append(str(cur.a[1]))
+            cur = cur.a[0]
+            continue
+        if cur.k == "vfield":
+            path.append("as " + str(cur.a[1]))
+            cur = cur.a[0]
+            continue
+        break
+    cur = strip(cur)
+    if not (cur.k == "call" and cur.a[0].name == "last_key_value" and "BTreeMap" in cur.a[0].fn and cur.a[1]):
+        return False
+    # (X as Some).0 is the (key, value) tuple, its .0 the key
+    if path != ["0", "as Some"]:  # (X as Some) is the (key, value) tuple, .0 the key
+        return False
+    recv = cur.a[1][0]
+    for _ in range(4):
+        recv = strip(recv)
+        if recv.k in ("ref", "deref"):
+            recv = recv.a[0]
+            continue
+        break
+    recv = strip(recv)
+    return recv.k == "mutated" and m.content_local is not None and recv.a[1] == m.content_local
+
+
 def ordering(ctx, report, m, f):
     cfg = ctx.config
     an = m.an
     g = an.cfg
     found = None
+    via_map = False
     for b, t in f.calls():
         if b.idx not in m.loop_body or t.callee is None:
             continue
@@ -282,8 +316,12 @@ def ordering(ctx, report, m, f):
             elif m.is_key(a0) and not m.is_key(a1):
                 found = (b.idx, t, a1, True)
             if found:
-                # the other side must be the Some payload of a loop-carried local
+                # the other side must be the Some payload of a loop-carried local,
+                # or the largest key of the map every accepted key is stored in
                 o = strip(found[2])
+                if map_maximum(m, o):
+                    via_map = True
+                    break
                 if not (o.k == "vfield" and o.a[1] == "Some"):
                     found = None
                 else:
@@ -323,6 +361,16 @@ def ordering(ctx, report, m, f):
     report.check("KEYS", "strictly-increasing", ok, "an iteration continues only when cmp(previous key, key) is exactly Less",
                  "the iteration continues when cmp(previous key, key) is in %s; must be exactly {Less} (sorted, no duplicates)" % (sorted(cont) if cont is not None else "?"),
                  fn=f.path, sp=t.sp, config=cfg)
+    if via_map:
+        # key > max(keys stored so far) >= previous key, provided every iteration that continues stores its own key in that map
+        bbi, ti = m.insert_ev
+        kexpr = strip(an.operand_expr(ti.args[1], bbi, len(f.blocks[bbi].stmts)))
+        k_ok = kexpr.k == "call" and kexpr.a[0].name in ("to_vec", "into", "to_owned", "from") and kexpr.a[1] and m.is_key(kexpr.a[1][0])
+        latches = [n for n in m.loop_body if m.loop_head in g.succ[n]]
+        uncond = bool(latches) and all(g.dominates(bbi, tl) for tl in latches)
+        report.check("KEYS", "prev-updated", bool(k_ok and uncond), "every iteration stores its key in the map whose largest key the next one is compared with",
+                     "the key is compared with the largest key of the content map, but not every accepted key is stored there under itself", fn=f.path, sp=t.sp, config=cfg)
+        return
     # prev := Some(key) on the way to the next iteration
     o = strip(other)
     prev_expr = o.a[0]
@@ -398,4 +446,7 @@ def run(ctx, report):
     from rules import c01
     # "a public key of the record's key type": which entry each key type reads (CombinedKey: secp256k1, else ed25519)
     c01.pubkey_rule(ctx, Only(report, {"PUBKEY": "PUBKEY"}))
+    # "a valid signature": the gate compares against rlp_content(); a valid record is accepted only if that is
+    # the EIP-778 content encoding [seq, k, v, ...] with a correct list header
+    c01._own_run(ctx, Only(report, {"PAYLOAD": "PAYLOAD"}))
 
